@@ -28,6 +28,8 @@ pub fn cells(tier: Tier) -> Vec<CellPlan> {
     add(cells::rates("C02"), 1, 2, 3, 4, 1.0);
     add(cells::same_frame("C02"), 1, 2, 2, 3, 1.0);
     add(cells::split_lossy("C02"), 2, 3, 3, 4, 2.0);
+    add(cells::wrap("C02", 4), 1, 2, 3, 4, 2.0);
+    add(cells::same_frame3("C02"), 1, 1, 1, 2, 1.0);
     v
 }
 
